@@ -1,3 +1,4 @@
+import os
 import sys, json
 sys.path.insert(0,'/verif/checker')
 from model import *
@@ -27,7 +28,8 @@ def dump(fn, blocks=None):
         else: print('    ->',k)
 if __name__=='__main__':
     cfg=sys.argv[3] if len(sys.argv)>3 else 'default'
-    import hashlib; h=hashlib.sha256(b'/repo').hexdigest()[:10]; F=Facts('/verif/.cache/out/%s-%s/api-fatfs.json'%(cfg,h),'/verif/.cache/out/%s-%s/facts.json'%(cfg,h))
+    from extract import extract
+    api, facts, _ = extract(cfg, os.environ.get('VF_REPO', '/repo')); F=Facts(api, facts)
     names=[n for n in F.fns if sys.argv[1] in n]
     if len(names)>1 and sys.argv[1] in names: names=[sys.argv[1]]
     for n in names:
